@@ -1,5 +1,4 @@
 package main
 
-func genTCPFlags()  {}
 func genWiring()    {}
 func genStages()    {}
